@@ -179,6 +179,9 @@ impl<'a> Model<'a> {
                 if code != 5 && code != 3 {
                     self.v("list_unexpected_status", &["C13", "C17"], format!("list call answered code {}", code));
                 }
+                if in_walk && !token.is_empty() && self.last_mutation_idx < c.invoke_idx.min(self.walks[&c.op].first_invoke) {
+                    self.v("issued_token_rejected", &["C13"], format!("the page token {:?} issued by the previous page of this walk was answered with code {}", token, code));
+                }
                 self.walks.remove(&c.op);
                 return;
             }
